@@ -229,13 +229,12 @@ func (h *Handler6) ProcessPacket(pkt packet.Frame) (err error) {
 		// curPrefix := router.Options.FirstPrefix // keep current prefix
 		router.Options = options
 		router.Prefixes = options.Prefixes
-		h.Unlock()
-
-		if Logger6.IsDebug() {
+		if Logger6.IsDebug() { // router.Options is read under the lock
 			l := Logger6.Msg("ether").Struct(pkt.Ether()).Module("icmp6", "ip6").Struct(ip6Frame)
 			l.Module("icmp6", "router advertisement").Struct(icmp6Frame).Sprintf("options", router.Options)
 			l.Write()
 		}
+		h.Unlock()
 		return nil
 
 	case ipv6.ICMPTypeRouterSolicitation:
